@@ -18,7 +18,7 @@ import (
 const (
 	vhBase     = int64(1600000000000000000)
 	vhInterval = int64(2000)
-	vhTick      = vhInterval / 20
+	vhTick     = vhInterval / 20
 )
 
 // VH_C20_breaker_safety: never more than `limit` admissions within any window of one
@@ -181,10 +181,26 @@ func (b *vhScriptBreaker) Do(f func() error) (bool, error) {
 }
 
 // VH_C20_throttle: n submitters, pending limit lim, attempts 2.
-func VH_C20_throttle(n, lim int) {
+func VH_C20_throttle(n, lim int) { vhC20Throttle(n, lim, false) }
+
+// VH_C20_throttle_err: the submitted functions fail: still run at most once each, and the
+// caller gets the function's own error.
+func VH_C20_throttle_err(n, lim int) { vhC20Throttle(n, lim, true) }
+
+// VH_C20_throttle_disabled: a disabled throttle (limits switched off) still runs each
+// function at most once and leaves nothing pending.
+func VH_C20_throttle_disabled(n, lim int) { vhC20ThrottleD(n, lim, false, true) }
+
+func vhC20Throttle(n, lim int, failing bool) { vhC20ThrottleD(n, lim, failing, false) }
+
+func vhC20ThrottleD(n, lim int, failing, disabled bool) {
+	thunkErr := NewSyntaxError("thunk failed")
 	vsetNow(vhBase)
 	t, err := NewThrottle(2, lim, time.Duration(10), &vhScriptBreaker{})
 	vassume(err == nil)
+	if disabled {
+		t.Disable(true)
+	}
 	runs := make([]int, n)
 	results := make([]error, n)
 	var mu sync.Mutex
@@ -201,6 +217,9 @@ func VH_C20_throttle(n, lim int) {
 					maxPending = p
 				}
 				mu.Unlock()
+				if failing {
+					return thunkErr
+				}
 				return nil
 			})
 			wg.Done()
@@ -209,13 +228,21 @@ func VH_C20_throttle(n, lim int) {
 	wg.Wait()
 	for i := 0; i < n; i++ {
 		vassert(runs[i] <= 1, "submitted-function-runs-at-most-once")
-		if results[i] == nil {
+		if failing {
+			if results[i] == error(thunkErr) {
+				vassert(runs[i] == 1, "own-error-means-it-ran-once")
+			} else {
+				vassert(results[i] != nil && runs[i] == 0, "failure-means-it-did-not-run")
+			}
+		} else if results[i] == nil {
 			vassert(runs[i] == 1, "success-means-it-ran")
 		} else {
 			vassert(runs[i] == 0, "failure-means-it-did-not-run")
 		}
 	}
-	vassert(maxPending <= lim+1, "pending-within-limit-plus-one")
+	if !disabled {
+		vassert(maxPending <= lim+1, "pending-within-limit-plus-one")
+	}
 	p, _ := t.Pending()
 	vassert(p == 0, "nothing-pending-at-the-end")
 	vreach("end")
